@@ -3,6 +3,16 @@
 import json, os, subprocess
 
 CLAIMS = {
+ "C08": dict(
+   category="exploration", design_ref="DESIGN.md §5 C08, Appendix B",
+   technique="property-based testing (rapid) over generated schemas × typed values against reference typeView/reprView functions written from the schema spec; two build routes; encode/decode fixpoint against the reference DAG-CBOR encoder; also compiled into the generated-code differential harness (C13)",
+   text="Generated acyclic schemas (structs with map/tuple/stringjoin/listpairs representation incl. renames and optional/nullable/both fields, unions keyed/kinded/stringprefix, enums string/int, typed maps and lists with nullable values, links, Any) and generated inhabitants are built through the type-level builder from the reference type view and through the representation builder from the reference representation view; both nodes must read (full self-consistency reader, wrong-kind checks included) as exactly the two reference views; the encoded representation must equal the reference encoding of the representation view and decode back, through the representation builder, to the same views and bytes. Engines: bindnode with inferred Go types here; generated code under C13 with the same oracle; user-supplied Go types under C19.",
+   note="Trusted: the reference views (harness/tschema). Values without a representation (non-trailing absent tuple fields, delimiter inside stringjoin parts) are not generated; implicit values are unsupported by both engines. One known finding (Any as a direct union member) is steered around."),
+ "C09": dict(
+   category="exploration", design_ref="DESIGN.md §5 C09, Appendix B",
+   technique="property-based testing (rapid): conforming data-model trees and their local mutations fed to typed builders directly and through DAG-CBOR (strict, relaxed) and DAG-JSON, decided by an independent reference conformance parser (accept ⇔ conforms, no panic, accepted node = denoted value)",
+   text="For generated schemas, at type and representation level, the tree of a conforming value is mutated 0-3 times (drop / duplicate / rename entry, retype, swap, nullify, extra element, delimiter-bearing string tweaks, substitution of schema vocabulary such as type-level names where the representation renames) and offered to the typed builder as assembler calls, as strict DAG-CBOR, as relaxed DAG-CBOR (which passes duplicate keys on to the builder) and as DAG-JSON text. The builder must accept exactly when the reference parser says the tree conforms, must never panic, and an accepted node must read as the denoted value at both levels. bindnode here; generated code under C13.",
+   note="Trusted: the reference parser (harness/tschema.Parse). Undecided inputs (null or >int64 ints inside Any) are classified and skipped."),
  "C11": dict(
    category="exploration", design_ref="DESIGN.md §5 C11",
    technique="stateful property-based testing (rapid): generated histories of node-producing and potentially mutating API calls over a table of tracked nodes, with a snapshot invariant checked after every step",
